@@ -46,6 +46,11 @@ def optimize_prec_assignment(model: MPS,
 
     # Modify the sampling strategy to be argmax before the precisions reassignment.
     # Perform a dummy forward pass to ensure the theta alpha values are updated.
+    # The model is put in eval mode meanwhile: in training mode with Gumbel sampling the
+    # hard sample is random, not the argmax (and the dummy pass would update the BatchNorm
+    # statistics)
+    modes = [(m, m.training) for m in model.modules()]
+    model.eval()
     model.update_softmax_options(hard=True)
     model(model._input_example)
 
@@ -167,6 +172,8 @@ def optimize_prec_assignment(model: MPS,
 
     # Update the theta_alpha parameters with a dummy forward pass
     model(model._input_example)
+    for m, mode in modes:
+        m.training = mode
     print("Model cost decreased from {} to {}".format(base_model_cost.item(), best_model_cost.item()))
 
     return model
